@@ -137,6 +137,52 @@ structure BInv (g : Graph) (source t : Nat) (lv : Array Nat) (q : List Nat) (fue
   closed : ∀ x, x < g.numNodes → x ≠ source → Lab lv x → x ∈ q ∨ ∀ v, PosEdge g v x → Lab lv v
   bound  : ∀ x, x < g.numNodes → x ≠ source → Lab lv x → gt lv x + fuel ≤ g.numNodes + 1
 
+/-- one iteration of the BFS loop keeps the invariant -/
+theorem binv_step (g : Graph) (hwf : WF g) (huq : Uniq g) (hrc : RevClosed g) (source t : Nat)
+    (hN : g.numNodes + 2 < INV) (fuel : Nat) (lv : Array Nat) (u : Nat) (rest : List Nat)
+    (lv1 : Array Nat) (q1 : List Nat) (hi : BInv g source t lv (u :: rest) (fuel + 1))
+    (hb : bfsEdges g source u (g.beginEdges u) (g.deg u) lv rest = some (lv1, q1)) :
+    BInv g source t lv1 q1 fuel := by
+  obtain ⟨hun, hus, hul⟩ := hi.qOK u List.mem_cons_self
+  have hbd := hi.bound u hun hus hul
+  obtain ⟨a1, a2, a3, a4, a5, a6, a7, a8⟩ := bfsEdges_spec g hwf source u (gt lv u) hun hus (by omega)
+    (g.deg u) (g.beginEdges u) lv rest lv1 q1 (Nat.le_refl _) (Nat.le_refl _) hi.hsz hul rfl hb
+  refine ⟨a1, a3 _ hi.labT, ?_, ?_, ?_⟩
+  · intro x hx
+    rcases a7 x hx with h1 | h1
+    · have := hi.qOK x (List.mem_cons_of_mem _ h1)
+      exact ⟨this.1, this.2.1, a3 _ this.2.2⟩
+    · exact h1
+  · intro x hx hxs hl
+    rcases a6 x hxs hl with h1 | h1
+    · rcases hi.closed x hx hxs h1 with h2 | h2
+      · rcases List.mem_cons.mp h2 with rfl | h3
+        · -- x = u has just been expanded
+          right
+          intro v hpe
+          obtain ⟨e0, r1, r2, r3, r4⟩ := hpe
+          have hvn : v < g.numNodes := by
+            rcases Nat.lt_or_ge v g.numNodes with hlt | hge
+            · exact hlt
+            · have := hwf.deg_zero_of_ge v hge; omega
+          obtain ⟨e', re', te'⟩ := hrc v e0 hvn ⟨r1, r2⟩
+          rw [r3] at re'
+          rcases a5 e' re'.1 re'.2 with h4 | ⟨rev, h4, h5⟩
+          · rw [te'] at h4; exact h4
+          · rw [te'] at h4
+            have := findEdge_eq_of_uniq huq v x e0 hvn ⟨r1, r2⟩ r3
+            rw [this] at h4
+            cases h4
+            omega
+        · exact Or.inl (a4 x h3)
+      · right; intro v hv; exact a3 v (h2 v hv)
+    · exact Or.inl h1.1
+  · intro x hx hxs hl
+    rcases a6 x hxs hl with h1 | h1
+    · rw [a8 x hxs h1]
+      have := hi.bound x hx hxs h1; omega
+    · rw [h1.2]; omega
+
 theorem bfsLoop_spec (g : Graph) (hwf : WF g) (huq : Uniq g) (hrc : RevClosed g) (source t : Nat)
     (hN : g.numNodes + 2 < INV) (fuel : Nat) :
     ∀ (lv : Array Nat) (q : List Nat) (lv' : Array Nat), BInv g source t lv q fuel →
@@ -158,51 +204,12 @@ theorem bfsLoop_spec (g : Graph) (hwf : WF g) (huq : Uniq g) (hrc : RevClosed g)
       · exact h1
     | cons u rest =>
       simp only [bfsLoop] at h
-      obtain ⟨hun, hus, hul⟩ := hi.qOK u List.mem_cons_self
       cases hb : bfsEdges g source u (g.beginEdges u) (g.deg u) lv rest with
       | none => simp [hb] at h
       | some r =>
         obtain ⟨lv1, q1⟩ := r
         simp only [hb] at h
-        have hbd := hi.bound u hun hus hul
-        obtain ⟨a1, a2, a3, a4, a5, a6, a7, a8⟩ := bfsEdges_spec g hwf source u (gt lv u) hun hus (by omega)
-          (g.deg u) (g.beginEdges u) lv rest lv1 q1 (Nat.le_refl _) (Nat.le_refl _) hi.hsz hul rfl hb
-        apply ih lv1 q1 lv' _ h
-        refine ⟨a1, a3 _ hi.labT, ?_, ?_, ?_⟩
-        · intro x hx
-          rcases a7 x hx with h1 | h1
-          · have := hi.qOK x (List.mem_cons_of_mem _ h1)
-            exact ⟨this.1, this.2.1, a3 _ this.2.2⟩
-          · exact h1
-        · intro x hx hxs hl
-          rcases a6 x hxs hl with h1 | h1
-          · rcases hi.closed x hx hxs h1 with h2 | h2
-            · rcases List.mem_cons.mp h2 with rfl | h3
-              · -- x = u has just been expanded
-                right
-                intro v hpe
-                obtain ⟨e0, r1, r2, r3, r4⟩ := hpe
-                have hvn : v < g.numNodes := by
-                  rcases Nat.lt_or_ge v g.numNodes with hlt | hge
-                  · exact hlt
-                  · have := hwf.deg_zero_of_ge v hge; omega
-                obtain ⟨e', re', te'⟩ := hrc v e0 hvn ⟨r1, r2⟩
-                rw [r3] at re' 
-                rcases a5 e' re'.1 re'.2 with h4 | ⟨rev, h4, h5⟩
-                · rw [te'] at h4; exact h4
-                · rw [te'] at h4
-                  have := findEdge_eq_of_uniq huq v x e0 hvn ⟨r1, r2⟩ r3
-                  rw [this] at h4
-                  cases h4
-                  omega
-              · exact Or.inl (a4 x h3)
-            · right; intro v hv; exact a3 v (h2 v hv)
-          · exact Or.inl h1.1
-        · intro x hx hxs hl
-          rcases a6 x hxs hl with h1 | h1
-          · rw [a8 x hxs h1]
-            have := hi.bound x hx hxs h1; omega
-          · rw [h1.2]; omega
+        exact ih lv1 q1 lv' (binv_step g hwf huq hrc source t hN fuel lv u rest lv1 q1 hi hb) h
 
 /-- transitive closure the other way round: `v` reaches `t` -/
 inductive ReachTo (g : Graph) (t : Nat) : Nat → Prop where
